@@ -5,7 +5,7 @@
 # that the real /repo and the real harness build are left alone while the batch runs (the apply / run / undo cycle of
 # run_seeded.py then happens on the clone). Results go to seeded/<id>/results.json as usual.
 set -u
-S=/var/tmp/seedrun
+S=${SEEDRUN_DIR:-/var/tmp/seedrun}
 tier=quick
 if [ "${1:-}" = "--tier" ]; then tier=$2; shift 2; fi
 if [ "${1:-}" = "--all" ]; then ids=$(ls -d /verif/seeded/C??? | xargs -n1 basename); else ids="$@"; fi
